@@ -118,6 +118,41 @@ bool all_terms_valid(const Lattice& L, const RSites& S, std::string& bad) {
     return true;
 }
 
+
+// ---- exhaustive enumeration of raw addTerm arguments: every term of order 2, 3 and 4 whose operators are drawn from
+//      {A, B, zz} x orbital {0,1,2} x spin {0,1,2} on the lattice A(1 orbital, 2 spins), B(2 orbitals, 1 spin) -- every position of
+//      an invalid index, every pattern of repeated labels -- with a non-zero and a zero amplitude.  Oracle: rejected with exWrongLabel and
+//      lattice unchanged iff some operator is outside its site; otherwise stored verbatim under its order (nothing stored for amplitude 0).
+void addterm_enumeration(const Args& a, Recorder& rec, Clock& clk) {
+    const char* labs[3] = { "A", "B", "zz" }; int orbs[3] = { 1, 2, 0 }, spins[3] = { 2, 1, 0 };
+    Lattice L; L.addSite(new Lattice::Site("A", 1, 2)); L.addSite(new Lattice::Site("B", 2, 1));
+    long idx = 0, done = 0;
+    for (int N : { 2, 3, 4 }) { long total = 1; for (int k = 0; k < N; ++k) total *= 27;
+        for (long code = 0; code < total; ++code) { if ((idx++ % a.nshards) != a.shard) continue;
+            bool seq[4]; std::string lab[4]; unsigned short orb[4], spin[4]; long c = code; bool valid = true;
+            for (int k = 0; k < N; ++k) { int x = c % 27; c /= 27; int l = x / 9, o = (x / 3) % 3, z = x % 3; lab[k] = labs[l]; orb[k] = o; spin[k] = z; seq[k] = (k < (N + 1) / 2); if (o >= orbs[l] || z >= spins[l]) valid = false; }
+            for (double v : { 1.25, 0.0 }) {
+                size_t before = L.Terms->Terms.count(N) ? L.Terms->Terms.at(N).size() : 0; size_t keys = L.Terms->Terms.size(); unsigned mo = L.Terms->MaxTermOrder;
+                Lattice::Term* T = new Lattice::Term(N, seq, v, lab, orb, spin); bool threw = false, other = false;
+                try { L.addTerm(T); } catch (Lattice::exWrongLabel&) { threw = true; } catch (std::exception&) { other = true; }
+                size_t after = L.Terms->Terms.count(N) ? L.Terms->Terms.at(N).size() : 0; rec.evaluations++; ++done;
+                auto kase = [&]() { std::string s = "lattice A(1,2) B(2,1) | addTerm(" + std::to_string(v) + " *"; for (int k = 0; k < N; ++k) s += std::string(seq[k] ? " c+[" : " c[") + lab[k] + "," + std::to_string(orb[k]) + "," + std::to_string(spin[k]) + "]"; return s + ")"; };
+                if (other) rec.violation("C20:addTerm-enumeration:other-exception", "addTerm fails with something else than exWrongLabel", kase());
+                else if (!valid && !threw) rec.violation("C20:addTerm-enumeration:accepted-invalid", "a term with an unknown site or an orbital / spin outside its site is accepted", kase());
+                else if (valid && threw) rec.violation("C20:addTerm-enumeration:rejected-valid", "a valid term is rejected", kase());
+                if (threw && (after != before || L.Terms->Terms.size() != keys || L.Terms->MaxTermOrder != mo)) rec.violation("C20:addTerm-enumeration:rejected-but-modified", "a rejected term changes the lattice", kase());
+                if (!threw && !other) { size_t want = before + (v != 0 ? 1 : 0); if (after != want) rec.violation(v != 0 ? "C20:addTerm-enumeration:not-stored" : "C20:addTerm-enumeration:zero-amplitude-stored", "term count of its order after an accepted call is wrong", kase());
+                    else if (v != 0) { const Lattice::Term& Sx = *L.Terms->Terms.at(N).back(); bool same = (Sx.getOrder() == (unsigned)N && Sx.Value == MelemType(v)); for (int k = 0; k < N && same; ++k) same = (Sx.SiteLabels[k] == lab[k] && Sx.Orbitals[k] == orb[k] && Sx.Spins[k] == spin[k] && Sx.OperatorSequence[k] == seq[k]); if (!same) rec.violation("C20:addTerm-enumeration:stored-differs", "the stored term differs from the one passed in", kase()); }
+                    if (v != 0 && after > 64) { L.Terms->Terms.at(N).clear(); }      // keep the list short (list growth is not what is enumerated here)
+                }
+                if (threw || other || v == 0) delete T;
+            }
+        }
+        if (clk.s() > a.deadline) { rec.exhaustive = false; break; }
+    }
+    rec.counters["addterm_calls"] += done;
+}
+
 int run(const Args& a, Recorder& rec) {
     Clock clk; std::vector<LOp> A = make_alphabet(a.thorough()); int maxdepth = a.thorough() ? 4 : 3;
     struct Node { std::vector<int> hist; };
@@ -220,7 +255,8 @@ int run(const Args& a, Recorder& rec) {
         frontier.swap(next);
         if (clk.s() > a.deadline) { rec.exhaustive = false; rec.note("deadline at depth " + std::to_string(d)); break; }
     }
-    rec.bound = "BFS depth " + std::to_string(maxdepth) + " over " + std::to_string(A.size()) + " calls; " + std::to_string(all.size()) + " distinct lattice states";
+    rec.bound = "BFS depth " + std::to_string(maxdepth) + " over " + std::to_string(A.size()) + " calls; " + std::to_string(all.size()) + " distinct lattice states; all 2 x (27^2+27^3+27^4) raw addTerm argument tuples";
+    addterm_enumeration(a, rec, clk);
     return 0;
 }
 } // namespace
